@@ -587,6 +587,29 @@ func (m *Model) RunScope(s *Sink, rule string) {
 	} {
 		fn := m.Method("evaluator", "Evaluator", st.fn)
 		s := s
+		if st.fn == "evalForStmt" || st.fn == "evalEachStmt" {
+			// the loop cases (rule_loopcases.go) observe the scope of every body pass and of the @else body
+			outer, sub := s, NewSink()
+			s = sub
+			cr, what := m.eachCases(), "@each"
+			if st.fn == "evalForStmt" {
+				cr, what = m.forCases(), "@for"
+			}
+			defer func() {
+				if cr.decided && len(cr.bad) == 0 {
+					outer.OK(rule, what+" by cases|the body and the @else body run in a scope of the loop's own, enclosed by the incoming one", cr.pos, "observed in all %d scenarios of the case evaluation", cr.cases)
+					for _, o := range sub.Obls {
+						if o.Status == Violated || o.Status == Undecided {
+							outer.OK(o.Rule, o.Key, o.Pos, "the code does not have the shape this structural reading expects (%s); decided by case evaluation instead", o.Detail)
+						} else {
+							outer.Obls = append(outer.Obls, o)
+						}
+					}
+				} else {
+					outer.Obls = append(outer.Obls, sub.Obls...)
+				}
+			}()
+		}
 		if st.fn == "evalIfStmt" {
 			// decided by case evaluation (rule_ifcases.go); the structural reading is the diagnosis / the fallback
 			outer, sub := s, NewSink()
@@ -793,6 +816,11 @@ func (m *Model) RunScope(s *Sink, rule string) {
 				}
 				key := fnKey(e.Caller.Func) + "|loop object is bound in the loop's own scope"
 				recv := e.Site.Common().Args[0]
+				if ld, isLd := recv.(*ssa.UnOp); isLd {
+					if cv, ok := cellValue(ld); ok {
+						recv = cv // a scope variable captured by closures and never reassigned
+					}
+				}
 				if nc, ok := recv.(*ssa.Call); ok && nc.Call.StaticCallee() == newEnclosed {
 					s.OK(rule, key, m.InstrPos(e.Site), "SetLoopVar on NewEnclosedEnv(env): the outer loop object is visible again afterwards")
 				} else {
